@@ -171,3 +171,12 @@ func init() {
 func init() {
 	claim("C16", "L1", "L2", "L3", "L5", "Z1", "Z2", "Z4", "ZONCE")
 }
+
+func init() {
+	claim("C01", "V1", "V2", "V3", "V4", "V5")
+}
+
+func init() {
+	claim("C09", "O1", "O2", "O3", "O4", "O5", "O7", "S4")
+	claim("C01", "O1")
+}
